@@ -62,6 +62,8 @@ func main() {
 		runFault(cfg)
 	case "replay":
 		runReplay(cfg)
+	case "stores":
+		runStores(cfg)
 	case "privacy":
 		runPrivacy(cfg)
 	case "crash":
